@@ -47,7 +47,7 @@ Definition mstep (op pos : N) (s : list elt) : N * list elt :=
     end
   else
     let '(vis, s') := each_rm eid (rm_of op) s in
-    (code_ids (map (fun o => match o with Some e => eid e | None => 7 end) vis), s').
+    (code_ids (map eid vis), s').
 
 Definition obs_of (res : N) (s : list elt) : N :=
   res * 2097152 + N.of_nat (length s) * 262144 + code_ids (map eid s).
@@ -93,7 +93,7 @@ Definition spec_step (op pos : N) (s : list elt) : list N * list elt :=
 Definition SIG_ADD_REP := 1.        (* Add did not return the representative / the new item *)
 Definition SIG_COUNT := 2.          (* Count() differs from the number of members *)
 Definition SIG_MEMBERS := 3.        (* members after Add/Remove are not the set's *)
-Definition SIG_EACH_VISIT := 4.     (* Each with removal over >= 3 members does not visit each member once *)
+Definition SIG_EACH_VISIT := 4.     (* Each with removal over >= 3 members does not visit each member once (former defect a) *)
 Definition SIG_EACH_LEFT := 5.      (* ... and does not leave exactly the members not removed *)
 Definition SIG_EACH_VISIT_SMALL := 6. (* the same with <= 2 members *)
 Definition SIG_EACH_LEFT_SMALL := 7.
@@ -176,10 +176,7 @@ Definition model_events (c : scase) : list devent :=
   map DTick (tick_times (length (s_ticks c))).
 
 Definition model_obs (c : scase) : option (list (list ev)) :=
-  match run (model_events c) det0 with
-  | Some (rs, _) => Some (map (map ev_of_report) rs)
-  | None => None
-  end.
+  Some (map (map ev_of_report) (fst (run (model_events c) det0))).
 
 Fixpoint nodup_p (l : list (N * N)) : list (N * N) :=
   match l with
@@ -188,8 +185,7 @@ Fixpoint nodup_p (l : list (N * N)) : list (N * N) :=
   end.
 
 (* live cases (frames through the real receive loop): the UDP handler goroutines race, so
-   events and ports are compared up to order, and only when the model's outcome does not
-   depend on the order of the knocks (at most two groups) *)
+   events and ports are compared up to order *)
 Fixpoint insert_by {A} (key : A -> N) (x : A) (l : list A) : list A :=
   match l with
   | [] => [x]
@@ -213,25 +209,27 @@ Definition mismatches (cs : list scase) : list N :=
     match model_obs c with
     | Some m =>
         if s_live c then
-          Nat.leb (ngroups c) 2 && negb (list_eqb (list_eqb ev_eqb) (map canon m) (map canon (s_ticks c)))
+          negb (list_eqb (list_eqb ev_eqb) (map canon m) (map canon (s_ticks c)))
         else negb (list_eqb (list_eqb ev_eqb) m (s_ticks c))
     | None => true
     end) cs).
 
 (* ---- the property, evaluated on the observed events ---- *)
-Definition SIG_TCP_NEVER := 1.   (* a TCP port probed with SYN is in no portscan event *)
-Definition SIG_TWICE := 2.       (* a protocol/port pair of one source is listed more than once *)
-Definition SIG_LATE := 3.        (* a pair is missing from the first tick after the burst and listed later *)
+Definition SIG_TCP_NEVER := 1.   (* a TCP port probed with SYN is in no portscan event (former defect b) *)
+Definition SIG_TWICE := 2.       (* a pair of one source is listed more than once, >= 3 groups due (former defect a) *)
+Definition SIG_LATE := 3.        (* a pair is missing from the first tick and listed later, >= 3 groups due (former defect a) *)
 Definition SIG_MISSING := 4.     (* a UDP/ICMP pair probed is in no portscan event *)
 Definition SIG_SPURIOUS := 5.    (* a listed pair was not probed by that source, or unknown source *)
 Definition SIG_TWICE_LE2 := 6.   (* as 2 / 3, although at most two groups were due in the tick *)
 Definition SIG_LATE_LE2 := 7.
 
 (* what a probe is expected to be listed as; TCP port 22 is deliberately ignored by the
-   listener, UDP ports with a decoder are outside the property *)
+   listener, a SYN|ACK is not a connection attempt, UDP ports with a decoder are outside the
+   property *)
 Definition expected_pair (p : probe) : option (N * N) :=
   match p_proto p with
-  | 0 => if (p_port p =? 22) || negb (flag (p_flags p) 1) then None else Some (0, p_port p)
+  | 0 => if (p_port p =? 22) || negb (flag (p_flags p) 1) || flag (p_flags p) 4
+         then None else Some (0, p_port p)   (* a connection attempt: SYN without ACK *)
   | 1 => if existsb (N.eqb (p_port p)) udp_decoder_ports then None else Some (1, p_port p)
   | _ => Some (2, 0)
   end.
@@ -273,7 +271,7 @@ Definition violations (cs : list scase) : list (N * N) :=
   flat_map (fun c => map (fun s => (s_id c, s)) (case_sigs c)) cs.
 
 (* tag: 1 / 2 = one / two protocol groups knocked, 3 = three or more (several groups due in
-   one tick), 4 = probes but no knock (TCP only), 0 = nothing sent *)
+   one tick), 4 = probes but no knock (port 22 / SYN|ACK only), 0 = nothing sent *)
 Definition tags (cs : list scase) : list (N * N) :=
   map (fun c => (s_id c,
     match s_probes c with
